@@ -111,6 +111,22 @@ func (env *Env) BuildArg(e sx.Sexp, tags *[]string) (Arg, string, error) {
 		return Arg{}, "bad-op", err
 	}
 	a := Arg{Term: term, Ty: StripAlias(term)}
+	if term.K == "txt" {
+		// the type a type expression denotes: read by the implementation, encoded back for the predicates (which need a
+		// term: witnesses, culprits); the model reads the same text itself
+		var t px.Type
+		if f := Safely(func() { t = env.C.ParseType(term.S[0]) }); f != nil || t == nil {
+			*tags = append(*tags, "txt:refused")
+			return a, "unbuildable", fmt.Errorf("type text refused: %v", f)
+		}
+		a.C = t
+		if a.Ty, err = EncTy(t); err != nil {
+			*tags = append(*tags, "txt:unmodelled")
+			return a, "unbuildable", err
+		}
+		*tags = append(*tags, "txt:"+Head(a.Ty), "parse:text")
+		return a, "", nil
+	}
 	if a.C, err = env.BuildCtor(term); err != nil {
 		return a, "unbuildable", err
 	}
